@@ -27,6 +27,25 @@ pub fn sfs(ctx: &Ctx, args: &[&str], stdin: Option<&[u8]>) -> Run {
     sfs_env(ctx, args, stdin, &[])
 }
 
+/// Like `sfs`, but the input arrives on a real pipe in two pieces: `first` bytes, a pause, the rest.
+pub fn sfs_delayed(ctx: &Ctx, args: &[&str], stdin: &[u8], first: usize) -> Run {
+    let mut cmd = Command::new(&ctx.sfs_bin);
+    cmd.args(args).env("SFS_ALLOW_STDIN", "1").env_remove("RUST_BACKTRACE").env_remove("RUST_LOG")
+        .stdout(Stdio::piped()).stderr(Stdio::piped()).stdin(Stdio::piped());
+    let mut child = cmd.spawn().unwrap_or_else(|e| panic!("cannot run {}: {e}", ctx.sfs_bin));
+    let mut si = child.stdin.take().unwrap();
+    let bytes = stdin.to_vec();
+    let first = first.min(bytes.len());
+    std::thread::spawn(move || {
+        let _ = si.write_all(&bytes[..first]);
+        let _ = si.flush();
+        std::thread::sleep(std::time::Duration::from_millis(40));
+        let _ = si.write_all(&bytes[first..]);
+    });
+    let out = child.wait_with_output().expect("wait");
+    Run { code: out.status.code(), stdout: out.stdout, stderr: String::from_utf8_lossy(&out.stderr).into_owned() }
+}
+
 pub fn sfs_env(ctx: &Ctx, args: &[&str], stdin: Option<&[u8]>, env: &[(&str, &str)]) -> Run {
     let mut cmd = Command::new(&ctx.sfs_bin);
     cmd.args(args)
